@@ -182,18 +182,32 @@ def allGenerated (rs : List Request) : List Str := rs.flatMap (·.toGenerate)
 
 /-! ## Responses -/
 
-/-- `CodeGeneratorResponse.File`. -/
+/-- `CodeGeneratorResponse.File`.  `name`, `insertion_point` and `content` are proto2 `optional
+    string`s: a field can be ABSENT (`none`), PRESENT BUT EMPTY (`some []`) or present with a value.
+    The code as written never looks at presence: every decision goes through the generated getters
+    (`GetName()`, `GetInsertionPoint()`, `GetContent()`), which return "" for an absent field. -/
 structure RFile where
-  name : Str
-  insertionPoint : Str
-  content : Str
+  name : Option Str
+  insertionPoint : Option Str
+  content : Option Str
   deriving DecidableEq, Repr
+
+/-- `file.GetName()`. -/
+def RFile.getName (f : RFile) : Str := f.name.getD []
+/-- `file.GetInsertionPoint()`. -/
+def RFile.getIP (f : RFile) : Str := f.insertionPoint.getD []
+/-- `file.GetContent()`. -/
+def RFile.getContent (f : RFile) : Str := f.content.getD []
+
+/-- A response file the way `protogen` builds it: name and content present, the insertion point
+    present iff it is not empty. -/
+def rf (n ip c : Str) : RFile := ⟨some n, if ip = [] then none else some ip, some c⟩
 
 /-- One plugin's response together with its configured out. -/
 structure PluginResp where
   out : Str
   files : List RFile
-  deriving Repr
+  deriving DecidableEq, Repr
 
 inductive GErr where
   | duplicate                -- ValidatePluginResponses
@@ -207,13 +221,15 @@ def GErr.tag : GErr → String
   | .noInsertionPoint => "no-insertion-point"
 
 /-- `ValidatePluginResponses`: the key of every non-insertion-point file of every plugin must
-    be unique.  `key out name` is the path the file is identified by. -/
+    be unique.  `key out name` is the path the file is identified by.  "Insertion point" is
+    decided by VALUE (`file.GetInsertionPoint() != ""`), exactly as `WriteResponse` does: a file
+    whose insertion_point is present but empty is a plain file at both sites. -/
 def validateFiles (key : Str → Str → Str) (out : Str) : List RFile → List Str → Except GErr (List Str)
   | [], seen => .ok seen
   | f :: fs, seen =>
-    if f.insertionPoint ≠ [] then validateFiles key out fs seen
+    if f.getIP ≠ [] then validateFiles key out fs seen
     else
-      let k := key out f.name
+      let k := key out f.getName
       if k ∈ seen then .error .duplicate else validateFiles key out fs (k :: seen)
 
 def validatePluginResponses (key : Str → Str → Str) : List PluginResp → List Str → Except GErr (List Str)
@@ -282,14 +298,14 @@ def liftP {α} : Except PErr α → Except GErr α
 /-- One iteration of `WriteResponse`'s loop; the insertion-point read bucket IS the write
     bucket (`WriteResponseWithInsertionPointReadBucket(readWriteBucket)`). -/
 def writeFile (m : Mem) (f : RFile) : Except GErr Mem :=
-  if f.insertionPoint ≠ [] then
-    match memGet m f.name with
+  if f.getIP ≠ [] then
+    match memGet m f.getName with
     | .error e => .error (.path e)
     | .ok target =>
-      match insertAt target.toList f.insertionPoint f.content with
+      match insertAt target.toList f.getIP f.getContent with
       | none => .error .noInsertionPoint
-      | some c => liftP (memPut m f.name (String.ofList c))
-  else liftP (memPut m f.name (String.ofList f.content))
+      | some c => liftP (memPut m f.getName (String.ofList c))
+  else liftP (memPut m f.getName (String.ofList f.getContent))
 
 def writeResponse : Mem → List RFile → Except GErr Mem
   | m, [] => .ok m
@@ -457,5 +473,205 @@ def flushedA (bs : Buckets) : List Obj :=
     match outKind o with
     | .dir => m.map fun (k, c) => Obj.file (diskPath o k) c
     | _ => [Obj.archive o m]
+
+/-! ## What buf receives from a plugin: `bufprotopluginexec.binaryHandler` + the protoplugin
+    response writer with lenient validation + `bufprotoplugin.generator.Generate`
+
+  The plugin's bytes are unmarshalled into a `CodeGeneratorResponse` (field presence survives
+  the wire), then handed field by field to a `protoplugin.ResponseWriter`:
+
+    AddCodeGeneratorResponseFiles(response.GetFile()...)     the files as they are
+    AddError(response.GetError())                            "" is ignored
+    SetSupportedFeatures(response.GetSupportedFeatures())    0 = unset
+    SetMinimumEdition / SetMaximumEdition(Get...())          0 = unset
+
+  so of the response-level optional fields only VALUES reach buf: `error: ""` is the same as no
+  error field.  `ToCodeGeneratorResponse` then normalises the files
+  (`validateAndNormalizeCodeGeneratorResponse`, protoplugin/validate.go):
+
+   1. a file WITHOUT A NAME (`GetName() == ""`: absent or present-empty) continues the previous
+      file - its content is appended - unless it is the first file (error) or carries a non-empty
+      insertion point (error);
+   2. every name is replaced by `ToSlash(Clean(name))`; absolute names and names starting with
+      "../" are errors; a file WITHOUT insertion point (`GetInsertionPoint() == ""`) whose
+      normalised name an earlier file of the same response already has is DROPPED (lenient mode:
+      a warning on stderr); files with a non-empty insertion point are always kept;
+   3. supported_features must be a subset of {PROTO3_OPTIONAL = 1, SUPPORTS_EDITIONS = 2}, and with
+      SUPPORTS_EDITIONS minimum_edition and maximum_edition must be non-zero and ordered.
+
+  Finally `generator.Generate` turns a non-empty error string into a failure of the plugin. -/
+
+/-- One plugin's `CodeGeneratorResponse` as it is on the wire. -/
+structure Resp where
+  files : List RFile
+  error : Option Str
+  features : Option Nat
+  minEdition : Option Int
+  maxEdition : Option Int
+  deriving DecidableEq, Repr
+
+/-- Why running one plugin failed (before any response is applied). -/
+inductive XErr where
+  | firstNameless        -- "file: first value had no name set"
+  | namelessInsertion    -- "file: empty name with non-empty insertion point"
+  | pathEmpty            -- "file: path was empty" (unreachable after step 1; kept as coded)
+  | pathAbs              -- "should be relative"
+  | pathJump             -- "should not jump context"
+  | unknownFeatures
+  | noMinEdition
+  | noMaxEdition
+  | minGtMax
+  | pluginError          -- the response's own non-empty `error`
+  deriving DecidableEq, Repr
+
+def XErr.tag : XErr → String
+  | .firstNameless => "first-nameless"
+  | .namelessInsertion => "nameless-insertion"
+  | .pathEmpty => "path-empty"
+  | .pathAbs => "path-abs"
+  | .pathJump => "path-jump"
+  | .unknownFeatures => "unknown-features"
+  | .noMinEdition => "no-min-edition"
+  | .noMaxEdition => "no-max-edition"
+  | .minGtMax => "min-gt-max"
+  | .pluginError => "plugin-error"
+
+/-- Step 1, the body for a nameless file: `if curFile.Content != nil { … }` - here presence of
+    `content` is looked at, with no observable difference (appending "" changes nothing, and an
+    absent content reads as ""). -/
+def appendContent (prev cur : RFile) : RFile :=
+  match cur.content with
+  | none => prev
+  | some c =>
+    match prev.content with
+    | none => { prev with content := some c }
+    | some p => { prev with content := some (p ++ c) }
+
+/-- The loop of `validateAndNormalizeCodeGeneratorResponseFilesWithPotentialEmptyNames`. -/
+def mergeLoop : RFile → List RFile → Except XErr (List RFile)
+  | prev, [] => .ok [prev]
+  | prev, cur :: rest =>
+    if cur.getName ≠ [] then
+      match mergeLoop cur rest with
+      | .error e => .error e
+      | .ok l => .ok (prev :: l)
+    else if cur.getIP ≠ [] then .error .namelessInsertion
+    else mergeLoop (appendContent prev cur) rest
+
+def mergeNameless : List RFile → Except XErr (List RFile)
+  | [] => .ok []
+  | f :: fs => if f.getName = [] then .error .firstNameless else mergeLoop f fs
+
+/-- `validateAndNormalizePath`. -/
+def normalizeName (n : Str) : Except XErr Str :=
+  if n = [] then .error .pathEmpty
+  else
+    let c := clean n
+    if isAbs c then .error .pathAbs
+    else if jumpPrefix.isPrefixOf c then .error .pathJump
+    else .ok c
+
+/-- `validateAndNormalizeCodeGeneratorResponseFilesWithPotentialDuplicates`, lenient. -/
+def normLoop : List RFile → List Str → Except XErr (List RFile)
+  | [], _ => .ok []
+  | f :: fs, seen =>
+    match normalizeName f.getName with
+    | .error e => .error e
+    | .ok n =>
+      if n ∈ seen ∧ f.getIP = [] then normLoop fs seen
+      else
+        match normLoop fs (n :: seen) with
+        | .error e => .error e
+        | .ok l => .ok ({ f with name := some n } :: l)
+
+def normalizeFiles (fs : List RFile) : Except XErr (List RFile) :=
+  match mergeNameless fs with
+  | .error e => .error e
+  | .ok l => normLoop l []
+
+def Resp.feat (r : Resp) : Nat := r.features.getD 0
+def Resp.minEd (r : Resp) : Int := r.minEdition.getD 0
+def Resp.maxEd (r : Resp) : Int := r.maxEdition.getD 0
+
+/-- bit test on `supported_features` -/
+def hasBit (x bit : Nat) : Bool := (x / bit) % 2 = 1
+
+/-- Running one local plugin whose process answered `r`: the files buf goes on with. -/
+def pluginGenerate (r : Resp) : Except XErr (List RFile) :=
+  match normalizeFiles r.files with
+  | .error e => .error e
+  | .ok fs =>
+    if r.feat / 4 ≠ 0 then .error .unknownFeatures
+    else if hasBit r.feat 2 && r.minEd = 0 then .error .noMinEdition
+    else if hasBit r.feat 2 && r.maxEd = 0 then .error .noMaxEdition
+    else if hasBit r.feat 2 && r.minEd > r.maxEd then .error .minGtMax
+    else if r.error.getD [] ≠ [] then .error .pluginError
+    else .ok fs
+
+/-- What the input image demands of every plugin (`computeRequiredFeatures`): a target file uses
+    proto3 `optional`; the editions of the target files that are editions files. -/
+structure Required where
+  optional : Bool
+  editions : List Int
+  deriving DecidableEq, Repr
+
+/-- `checkRequiredFeatures` for one response: a missing PROTO3_OPTIONAL is only a warning; missing
+    SUPPORTS_EDITIONS, or a required edition outside [minimum_edition, maximum_edition], is an error.
+    (Its `MinimumEdition == nil` branches are unreachable after `pluginGenerate`.) -/
+def featureFails (req : Required) (r : Resp) : Bool :=
+  (!req.editions.isEmpty && !hasBit r.feat 2) ||
+  (hasBit r.feat 2 && req.editions.any fun e => e < r.minEd || e > r.maxEd)
+
+inductive GenErr where
+  | exec (e : XErr)      -- a plugin failed
+  | execMulti            -- two or more plugins failed: which errors surface depends on scheduling
+  | feature              -- checkRequiredFeatures
+  | run (e : AErr)       -- validateResponses / the response writer
+  deriving DecidableEq, Repr
+
+def GenErr.tag : GenErr → String
+  | .exec e => "exec:" ++ e.tag
+  | .execMulti => "exec-multi"
+  | .feature => "feature"
+  | .run e => e.tag
+
+/-- The plugins run one after the other (in-process driver: the first failure is the result). -/
+def execSeq : List (Str × Resp) → Except GenErr (List PluginResp)
+  | [] => .ok []
+  | (out, r) :: rest =>
+    match pluginGenerate r with
+    | .error e => .error (.exec e)
+    | .ok fs =>
+      match execSeq rest with
+      | .error e => .error e
+      | .ok ps => .ok (⟨out, fs⟩ :: ps)
+
+def execFailures (rs : List (Str × Resp)) : List XErr :=
+  rs.filterMap fun x => match pluginGenerate x.2 with | .error e => some e | .ok _ => none
+
+/-- `execPlugins`: all plugins run in parallel with cancel-on-failure and the errors are joined;
+    with one failing plugin its error is the result, with several the visible ones depend on
+    scheduling and the model only says "several". -/
+def execPar (rs : List (Str × Resp)) : Except GenErr (List PluginResp) :=
+  match execFailures rs with
+  | [] => execSeq rs
+  | [e] => .error (.exec e)
+  | _ => .error .execMulti
+
+/-- `bufgen.generator.generateCode`: run the plugins, `validateResponses`,
+    `checkRequiredFeatures`, then apply every response in configuration order and flush. -/
+def runGenerate (par : Bool) (req : Required) (fs : FS) (cwd : Str) (rs : List (Str × Resp)) :
+    Except GenErr Buckets :=
+  match (if par then execPar rs else execSeq rs) with
+  | .error e => .error e
+  | .ok ps =>
+    match validatePluginResponses (dupKey cwd) ps [] with
+    | .error e => .error (.run (.gen e))
+    | .ok _ =>
+      if rs.any (fun x => featureFails req x.2) then .error .feature
+      else
+        match addResponsesA fs cwd [] ps with
+        | .error e => .error (.run e)
+        | .ok bs => .ok bs
 
 end BufModel.Generate
